@@ -112,6 +112,7 @@ def main(argv=None) -> int:
     ap.add_argument("--tier", default=os.environ.get("VERIF_TIER", "quick"), choices=["quick", "thorough"])
     ap.add_argument("--explain")
     ap.add_argument("--all", action="store_true")
+    ap.add_argument("--no-write", action="store_true", help="do not write evidence / report files (used by hand tools that run many analyses in parallel)")
     ap.add_argument("--selfcheck", action="store_true", help="setup: parse /repo, run every positive control")
     a = ap.parse_args(argv)
     try:
@@ -134,12 +135,12 @@ def main(argv=None) -> int:
             rc = 0
             tree = Tree()
             for p in sorted(PROPS):
-                c, *_ = run_property(p, a.tier, tree=tree)
+                c, *_ = run_property(p, a.tier, tree=tree, write=not a.no_write)
                 rc = max(rc, c)
             return rc
         if not a.prop:
             ap.error("property id required")
-        return run_property(a.prop, a.tier)[0]
+        return run_property(a.prop, a.tier, write=not a.no_write)[0]
     except AnalysisError as e:
         print(f"ANALYSIS-ERROR {e}")
         return 2
